@@ -263,4 +263,3 @@ func (in *Interp) sharesMemory(a, b Value) bool {
 	return shared
 }
 
-type fsModel struct{}
